@@ -129,7 +129,7 @@ impl Add for I64 {
             (Num(lhs), Num(rhs)) => match lhs.checked_add(rhs) {
                 Some(n) => Num(n),
                 None => {
-                    if lhs > 0 && rhs > 0 || lhs < 0 && rhs < 0 {
+                    if lhs > 0 && rhs > 0 {
                         PlusInf
                     } else {
                         MinusInf
@@ -153,7 +153,7 @@ impl Sub for I64 {
             (Num(lhs), Num(rhs)) => match lhs.checked_sub(rhs) {
                 Some(n) => Num(n),
                 None => {
-                    if lhs > 0 && rhs < 0 || lhs < 0 && rhs > 0 {
+                    if lhs >= 0 && rhs < 0 {
                         PlusInf
                     } else {
                         MinusInf
